@@ -180,7 +180,10 @@ func (r *Runner) unTest(ctx context.Context, op syntax.UnTestOperator, x string)
 		var f any
 		switch fd {
 		case 0:
-			f = r.stdin
+			// Only character devices can be terminals, and calling [os.File.Fd]
+			// on any other stdin would stop its reads from being cancellable.
+			_, ok := stdinTerminal(r.stdin)
+			return ok
 		case 1:
 			f = r.stdout
 		case 2:
